@@ -341,6 +341,15 @@ func b64wrap(der []byte) []byte {
 // ServerTLS returns the shared server-side TLS configuration.
 func ServerTLS() *tls.Config { tlsOnce.Do(genTLS); return srvTLS }
 
+// ServerTLSDynamic returns a server configuration that presents the same certificate as
+// ServerTLS but supplies it only through the GetCertificate callback (Certificates is empty),
+// the way servers with SNI or certificate reloading are configured.
+func ServerTLSDynamic() *tls.Config {
+	tlsOnce.Do(genTLS)
+	cert := srvTLS.Certificates[0]
+	return &tls.Config{GetCertificate: func(*tls.ClientHelloInfo) (*tls.Certificate, error) { return &cert, nil }}
+}
+
 // ClientTLS returns a client configuration trusting the harness CA.
 func ClientTLS() *tls.Config { tlsOnce.Do(genTLS); return cliTLS.Clone() }
 
